@@ -754,7 +754,7 @@ def translate_all():
 HEADER = """(* GENERATED by tools/py2jit.py from the pynapple sources under /repo -- do not edit.
    One Jit.Lang term per numba kernel; regenerate with: /venv/bin/python /verif/tools/gen.py *)
 From Coq Require Import ZArith QArith String List.
-From Verif Require Import Jit.Lang.
+From Verif Require Import Jit.Lang Jit.Interp.
 Import ListNotations.
 Local Open Scope string_scope.
 
@@ -768,7 +768,10 @@ def render(kernels):
         out.append(k.coq())
         out.append("\n")
     out.append("Definition all_kernels : list func :=\n  [" +
-               ";\n   ".join(f"k_{k.name}" for k in kernels) + "].\n")
+               ";\n   ".join(f"k_{k.name}" for k in kernels) + "].\n\n"
+               "(* a public call of kernel [k]: calls between kernels are resolved in [all_kernels] *)\n"
+               "Definition run (fuel : nat) (k : func) (args : list value) : outcome :=\n"
+               "  Interp.run all_kernels fuel k args.\n")
     return "".join(out)
 
 
